@@ -28,7 +28,7 @@ for id in ALL:
         "thorough_cmd": "./check %s thorough" % id,
         "evidence_file": "/verif/evidence/%s.json" % id,
         "replay_cmd_template": "./check %s --replay {path}" % id,
-        "engine": "harness",
+        "engine": "harness-hz" if id == "C16" else "harness",
         "level_claimed": {"category": "exploration", "text": text, "design_ref": ref},
         "level_note": note,
         "technique": technique,
@@ -44,7 +44,7 @@ m = {
         "source_commits": hook_commits,
         "add_only": True,
     },
-    "engines": [{"name": "harness", "path": "/verif/harness", "serves_properties": sorted(CHECKS), "kind_free_text": "Go runtime monitors: scripted-connection rig over the real engine/client, independent oracles, race detector, offline event-log checkers"}],
+    "engines": [{"name": "harness-hz", "path": "/verif/harness-hz", "serves_properties": ["C16"], "kind_free_text": "Go module that imports hz's generator package, generates, compiles and runs router code"}, {"name": "harness", "path": "/verif/harness", "serves_properties": sorted(k for k in CHECKS if k != "C16"), "kind_free_text": "Go runtime monitors: scripted-connection rig over the real engine/client, independent oracles, race detector, offline event-log checkers"}],
     "checks": checks,
     "notes": "Runtime monitoring: every check drives the real hertz code with seeded hostile workloads and judges recorded observations with an oracle independent of hertz. Exit 0 held / 1 violation / 2 inconclusive. known_findings.txt lists recorded findings and fixed defects.",
     "not_applicable": na,
